@@ -55,10 +55,55 @@ theorem finisher_iff (k : Fin 31) (sc : BitVec 64) :
 theorem join_leave (sc : BitVec 64) : BV.leaveSc (BV.joinSc sc) = sc := by
   simp [BV.leaveSc, BV.joinSc, BitVec.add_sub_cancel]
 
-/-- a thread is refused exactly when the word says "finishing" (`rs+1`) or "full" -/
-theorem join_refused_iff (sc rs : BitVec 64) :
-    BV.joinRefusedHelp sc rs = (sc == rs + BV.MAX_RESIZERS || sc == rs + 1#64) ∧
-    BV.joinRefusedAddCount sc rs = (sc == rs + BV.MAX_RESIZERS || sc == rs + 1#64) := ⟨rfl, rfl⟩
+theorem shift_val : Flurry.Gen.RESIZE_STAMP_SHIFT = 32 := by decide
+
+/-- the arithmetic right shift by the stamp shift compares exactly the stamp halves of two
+negative words -/
+theorem sshift_eq_iff (x y : BitVec 64) (hx : x.msb = true) (hy : y.msb = true) :
+    BitVec.sshiftRight x 32 = BitVec.sshiftRight y 32 ↔ x.toNat / 2 ^ 32 = y.toNat / 2 ^ 32 := by
+  rw [← BitVec.toNat_inj, BitVec.toNat_sshiftRight, BitVec.toNat_sshiftRight]
+  simp only [hx, hy, if_true, Nat.shiftRight_eq_div_pow]
+  have := x.isLt; have := y.isLt
+  omega
+
+/-- **a helper of another generation is refused** (finding F6). `help_transfer` computes `rs`
+from the table *it* holds and loads `size_ctl` after it has validated `(table, next_table)`; if
+the resize it validated has finished and the next one has started in between, the word it loads
+is `rs(2^j) + h` of the new table while its own stamp is `rs(2^k)`, `j ≠ k`. Whatever the
+participant count `h`, the refusal test of `help_transfer` (generated from the source) must say
+"do not join". Without the generation comparison this is false: `rs(2^j) + 1` ("the finisher has
+been elected") is neither `rs(2^k) + 1` nor `rs(2^k) + MAX_RESIZERS`, the stale helper is
+admitted, and the accounting of generation `j` (and of the one after it) is corrupted. -/
+theorem help_refuses_other_generation (j k : Fin 31) (hjk : j ≠ k) (h : BitVec 64)
+    (hh : h.toNat ≤ BV.MAX_RESIZERS.toNat) :
+    BV.joinRefusedHelp (BV.rsOf (len j) + h) (BV.rsOf (len k)) = true := by
+  have hr := stamp_room j h hh
+  have hne : BV.rsOf (len j) ≠ BV.rsOf (len k) := fun e => hjk (stamp_injective j k e)
+  have h0j := stamp_low_zero j
+  have h0k := stamp_low_zero k
+  have hdiv : (BV.rsOf (len j) + h).toNat / 2 ^ 32 ≠ (BV.rsOf (len k)).toNat / 2 ^ 32 := by
+    rw [hr.2.1]
+    intro e
+    apply hne
+    rw [← BitVec.toNat_inj]
+    omega
+  simp only [BV.joinRefusedHelp, shift_val, Bool.or_eq_true, bne_iff_ne, ne_eq]
+  left; left
+  rw [sshift_eq_iff _ _ hr.1 (stamp_negative k)]
+  exact hdiv
+
+/-- within its own generation a helper is refused exactly when the word says "the finisher has
+been elected" (`rs + 1`) or "full" (`rs + MAX_RESIZERS`) -/
+theorem help_same_generation_iff (k : Fin 31) (sc : BitVec 64)
+    (hs : BitVec.sshiftRight sc 32 = BitVec.sshiftRight (BV.rsOf (len k)) 32) :
+    BV.joinRefusedHelp sc (BV.rsOf (len k)) =
+      (sc == BV.rsOf (len k) + BV.MAX_RESIZERS || sc == BV.rsOf (len k) + 1#64) := by
+  simp [BV.joinRefusedHelp, shift_val, hs]
+
+/-- `add_count` compares the word it loaded *before* it loaded the table, and then CASes on that
+same word: a word of another generation fails the CAS. Its refusal test is the plain one. -/
+theorem join_refused_add_count (sc rs : BitVec 64) :
+    BV.joinRefusedAddCount sc rs = (sc == rs + BV.MAX_RESIZERS || sc == rs + 1#64) := rfl
 
 /-- The threshold stored after a resize of an `n`-bin table is three quarters of the new length
 `2n`, and equals what `load_factor!` gives for the new length. -/
@@ -76,5 +121,7 @@ theorem double_exact (n : Nat) : nextTableLen n = 2 * n := by simp [nextTableLen
 -- non-vacuity: a concrete length, stamp and helper count
 example : BV.rsOf (len 4) = 0x8000003b00000000#64 := by decide
 example : BV.notLastResizer (BV.rsOf (len 4) + 3#64) (len 4) = true := by decide
+-- a helper holding the 16-bin table meets the word "32-bin resize, finisher elected": refused
+example : BV.joinRefusedHelp (BV.rsOf (len 5) + 1#64) (BV.rsOf (len 4)) = true := by decide
 
 end Flurry.C10
